@@ -58,6 +58,19 @@ def make_files(ctx, count, small=False, kinds=None):
         a, b = lattice(steps[0], rng.choice([0, 3])), lattice(steps[1], rng.choice([0, 3]))
         chunks = rng.choice([[a, b], [a, b, a], [b, a, b], [a, a, b], [a, lattice(steps[0] * steps[1]), b]])
         cases.append({"dt": dt, "level": rng.choice([0, 0, 1, 2]), "order": 0, "gcds": 1, "chunks": chunks, "kinds": ["sibling"], "drain": 0})
+    # constant d-th differences at delta order d: every coded delta is the same value, the body is empty (zero bits per
+    # number) although n - d numbers are pending; evenly spaced, quadratic, cubic sequences, also above 1001 numbers
+    for _ in range(max(3, count // 10)):
+        dt = rng.choice([d for d in S.ALL_DT if C.DTYPES[d][2] not in ("bool",)])
+        d = rng.choice([1, 1, 2, 3])
+        n = rng.choice([3, 7, 40, 150]) if small else rng.choice([3, 40, 150, 400, 1100, 2500])
+        a = [rng.range(-50, 50) for _ in range(d + 1)]
+        if a[d] == 0:
+            a[d] = rng.choice([1, 3, -2])
+        base = rng.choice([0, 1000, 1 << 20])
+        xs = [G.from_signed_val(dt, base + sum(a[k] * (i ** k) for k in range(d + 1))) for i in range(n)]
+        chunks = [xs] if rng.chance(1, 2) else [xs, xs[: max(1, n // 2)]]
+        cases.append({"dt": dt, "level": rng.choice([0, 4, 8]), "order": d, "gcds": rng.below(2), "chunks": chunks, "kinds": ["const-delta"], "drain": 0})
     ans = C.harness([S.compress_line(c) for c in cases], timeout=600)
     files = []
     for c, a in zip(cases, ans):
